@@ -1,13 +1,13 @@
 SPECIFICATION Spec
 CONSTANTS
   MaxPg = 4
-  MaxOps = 7
+  MaxOps = 8
   BlockOf <- BlockL1
   LockPg = 0
   AllowWAL = TRUE
   FinModes = {"DELETE", "TRUNCATE", "PERSIST"}
   AllowSpill = TRUE
-  AllowBeyond = FALSE
+  AllowBeyond = TRUE
   FixBeyond = TRUE
   AllowNoSync = TRUE
   FixOOB = TRUE
@@ -15,7 +15,7 @@ CONSTANTS
   AllowCrash = FALSE
   FixJournalNoPS = TRUE
   FixModeOnOpen = TRUE
-  AllowDropDB = FALSE
+  AllowDropDB = TRUE
   AllowRetain = TRUE
   Emit = "end"
 INVARIANTS NoFault C04_Checksum C02_Image C02_Delta C02_Outcome C09_Chain CacheSound EmitInv
